@@ -90,3 +90,11 @@ package swagtool
 //@ modifies *models, any(elems([]definitions.StructMetadata))
 //@ ensures implies(!hasAnyErrorTypes, *models == old(*models))
 //@ ensures implies(hasAnyErrorTypes, len(*models) == old(len(*models)) + 1 && (*models)[len(*models)-1].Name == definitions.Rfc7807ErrorName)
+
+// ---- statements shared by the 3.0 and the 3.1 struct emitters (C07, C11) ----
+//@ spec jsonName(f definitions.FieldMetadata) string = GetJsonNameFromTag(f.Tag, f.Name)
+//@ spec fieldRequired(f definitions.FieldMetadata) bool = IsFieldRequired(GetTagValue(f.Tag, "validate", ""))
+//@ spec hasEmbedded(m definitions.StructMetadata) bool = exists(k, 0, len(m.Fields), m.Fields[k].IsEmbedded && m.Fields[k].Type != "error")
+// number of required (non-embedded) fields among the first n: positions in the `required` list
+//@ spec isReqField(f definitions.FieldMetadata) bool = !f.IsEmbedded && fieldRequired(f)
+//@ rec countReq(m definitions.StructMetadata, n int) int = ite(n <= 0, 0, countReq(m, n-1) + ite(isReqField(m.Fields[n-1]), 1, 0))
